@@ -44,7 +44,11 @@ type dsys struct {
 	restarts int
 	remotes  int
 	universe []string // allocatable addresses as CIDR strings, ascending
-	viols    []explore.Viol
+	// acked: allocations the node confirmed to its caller (Allocate returned the address after a
+	// successful store write) and that nobody released/overwrote since. They must survive any stop.
+	acked  map[string]string
+	lastOp string
+	viols  []explore.Viol
 }
 
 var theT *testing.T
@@ -56,7 +60,7 @@ func subName(i int) string { return fmt.Sprintf("s%d", i+1) }
 func recKey(sub string) string { return "/allocation/" + poolID + "/" + sub }
 
 func newDsys(c dcfg) *dsys {
-	s := &dsys{c: c}
+	s := &dsys{c: c, acked: map[string]string{}}
 	_, n, err := net.ParseCIDR(c.base)
 	if err != nil {
 		panic(err)
@@ -193,10 +197,13 @@ func (s *dsys) Ops() []string {
 	for i := 0; i < s.c.subs; i++ {
 		sub := subName(i)
 		ops = append(ops, "Allocate("+sub+")", "Release("+sub+")")
+		if i == 0 {
+			ops = append(ops, "AllocateMAC("+sub+")") // the duplicated AllocateWithMAC code path
+		}
 		if s.lease() {
 			ops = append(ops, "Renew("+sub+")")
 			if canCrash && s.mem(sub) != "" {
-				ops = append(ops, "Renew("+sub+")!crash@1")
+				ops = append(ops, "Renew("+sub+")!crash@1", "Renew("+sub+")!crash@2")
 			}
 		}
 		if s.remotes < s.c.maxRemote {
@@ -220,7 +227,7 @@ func (s *dsys) Ops() []string {
 	if s.lease() {
 		ops = append(ops, "AdvanceEpoch", "Tick")
 		if canCrash && s.st.nRecords() > 0 {
-			ops = append(ops, "Tick!crash@1", "Tick!crash@2")
+			ops = append(ops, "Tick!crash@1", "Tick!crash@2", "Tick!crash@3")
 		}
 	}
 	if s.faults < s.c.maxFaults && len(s.st.failNext) == 0 {
@@ -276,11 +283,25 @@ func (s *dsys) Apply(op string) (obs string) {
 	}
 	s.st.takeFired()
 	frame := "" // subscriber whose mapping the op may change ("" = no frame check, "-" = nobody)
+	prevOp := s.lastOp
+	s.lastOp = op
+	switch name {
+	case "Release", "RemotePut", "RemoteDelete":
+		delete(s.acked, a1) // the caller / another node asked for the record to go or change
+	case "Tick":
+		s.acked = map[string]string{} // the epoch loop may legitimately delete expired records
+	}
 
 	switch name {
-	case "Allocate":
+	case "Allocate", "AllocateMAC":
 		frame = a1
-		p, err := s.da.Allocate(ctx, a1)
+		var p *net.IPNet
+		var err error
+		if name == "AllocateMAC" {
+			p, err = s.da.AllocateWithMAC(ctx, a1, net.HardwareAddr{2, 0, 0, 0, 0, 1})
+		} else {
+			p, err = s.da.Allocate(ctx, a1)
+		}
 		if err != nil {
 			obs = "err"
 			break
@@ -290,14 +311,15 @@ func (s *dsys) Apply(op string) (obs string) {
 			break
 		}
 		if before[a1] != "" && before[a1] != obs {
-			s.v("stability", "Allocate", "%s held %s, Allocate returned %s", a1, before[a1], obs)
+			s.v("stability", name, "%s held %s, Allocate returned %s", a1, before[a1], obs)
 		}
 		if g := s.mem(a1); g != obs {
-			s.v("stability", "Allocate", "Allocate(%s) returned %s but Get says %q", a1, obs, g)
+			s.v("stability", name, "Allocate(%s) returned %s but Get says %q", a1, obs, g)
 		}
 		if rec, _, ok := s.st.record(recKey(a1)); !ok || rec != obs {
-			s.v("persist", "Allocate", "Allocate(%s) succeeded with %s but the stored record is %q (present=%v)", a1, obs, rec, ok)
+			s.v("persist", name, "Allocate(%s) succeeded with %s but the stored record is %q (present=%v)", a1, obs, rec, ok)
 		}
+		s.acked[a1] = obs
 	case "Release":
 		frame = a1
 		err := s.da.Release(ctx, a1)
@@ -384,6 +406,14 @@ func (s *dsys) Apply(op string) (obs string) {
 		pending := old.failNext
 		old.mu.Unlock()
 		s.st = newFstore(old.snapshot(), p)
+		// R1 (durability): whatever the stop interrupted, a confirmed allocation is still recorded
+		for i := 0; i < s.c.subs; i++ {
+			if a, ok := s.acked[subName(i)]; ok {
+				if rec, _, present := s.st.record(recKey(subName(i))); !present || rec != a {
+					s.v("R1-durable", opSiteOf(prevOp), "%s=%s was confirmed to the caller and never released, but after the stop following [%s] the surviving store records %q (present=%v)", subName(i), a, prevOp, rec, present)
+				}
+			}
+		}
 		s.st.failNext = pending // a fault armed before the restart hits the restart's own store calls
 		s.st.log = append(append([]string{}, old.log...), fmt.Sprintf("RESTART perm=%d", p))
 		if crash >= 0 {
@@ -423,12 +453,23 @@ func (s *dsys) Apply(op string) (obs string) {
 	if kind := s.st.takeFired(); kind != "" && frame != "" {
 		if agreeBefore[frame] && !s.agree(frame) {
 			rec, _, ok := s.st.record(recKey(frame))
-			s.v("R3-agreement", name+"/"+kind, "%s with a failing store %s: before, memory and store agreed on %s (%q); after, memory says %q and the store says %q (present=%v)",
+			k3 := "R3-agreement"
+			if before[frame] != "" && s.mem(frame) == "" && ok {
+				k3 = "R3-agreement/memory-lost" // the node forgot an allocation the store still records
+			}
+			s.v(k3, name+"/"+kind, "%s with a failing store %s: before, memory and store agreed on %s (%q); after, memory says %q and the store says %q (present=%v)",
 				op, kind, frame, before[frame], s.mem(frame), rec, ok)
 		}
 		obs += " fault:" + kind
 	}
 	return obs
+}
+
+func opSiteOf(op string) string {
+	if i := strings.IndexAny(op, "(!"); i >= 0 {
+		return op[:i]
+	}
+	return op
 }
 
 func errStr(err error) string {
@@ -511,7 +552,7 @@ func (s *dsys) checkRestart(perm int) {
 
 func (s *dsys) Fingerprint() string {
 	return deepdump.Dump(s.da, deepdump.Options{IgnoreTimes: true, SkipTypes: map[string]bool{"c12.fstore": true}}) +
-		"|" + s.st.canon() + fmt.Sprintf("|down=%v f=%d r=%d rem=%d", s.down, s.faults, s.restarts, s.remotes)
+		"|" + s.st.canon() + fmt.Sprintf("|down=%v f=%d r=%d rem=%d acked=%v", s.down, s.faults, s.restarts, s.remotes, s.acked)
 }
 
 // Check: R2 uniqueness + forward/reverse agreement in every state of a running node.
